@@ -1292,15 +1292,18 @@ Section ResolveProofs.
         * intros y NY. apply K3. intros [A B]. apply NY. split; [right; exact A | exact B].
   Qed.
 
-  Lemma numbered_match_in_heads : forall heads u h, numbered_match heads u = Some h -> In h heads.
-  Proof. intros heads u h H. unfold numbered_match in H. apply find_some in H. tauto. Qed.
+  Lemma numbered_match_in_heads : forall heads u h, heads <> [] -> numbered_match heads u = Some h -> In h heads.
+  Proof.
+    intros heads u h NE H. unfold numbered_match in H. destruct heads as [|a t]; [congruence | ].
+    apply find_some in H. tauto.
+  Qed.
 
-  Lemma add_numbered_some : forall heads bad vars (sf : sfT),
+  Lemma add_numbered_some : forall heads bad vars (sf : sfT), heads <> [] ->
     (forall h, In h heads -> amem sf h = true) -> exists r, add_numberedM heads bad vars sf = Some r.
   Proof.
-    intros heads bad. induction bad as [|v r IH]; intros vars sf HH; simpl; [eauto | ].
+    intros heads bad vars sf NE. revert vars sf. induction bad as [|v r IH]; intros vars sf HH; simpl; [eauto | ].
     destruct (numbered_match heads v) as [hv|] eqn:MV; [ | auto].
-    pose proof (HH _ (numbered_match_in_heads _ _ _ MV)) as A. apply amem_alookup in A. destruct A as [s A].
+    pose proof (HH _ (numbered_match_in_heads _ _ _ NE MV)) as A. apply amem_alookup in A. destruct A as [s A].
     rewrite A. apply IH. intros h Hh. rewrite amem_cons, (HH _ Hh). apply orb_true_r.
   Qed.
 
